@@ -256,3 +256,51 @@ def session_family():
             out.append(('fs_%s_%s_first' % (dn, fn), [bad, decl + use], None))                 # fails first
             out.append(('fs_%s_%s_mid' % (dn, fn), [decl, bad, use, bad, use.replace('0', '5')], None))
     return out
+
+
+def incremental_family():
+    """problems whose first part makes the solver apply rules that contain facts (on plain interval predicates, state
+    variables, resources) under a resolver that is not the only one (two goals that can unify), and whose later parts are
+    plain top-level statements; (name, parts, True)"""
+    hosts = {
+        'plain': ('predicate P() : Interval { duration >= 1.0; }\n', 'new P()'),
+        'sv': ('class Sv : StateVariable { predicate S() { duration >= 1.0; } }\nSv sv = new Sv();\n', 'new sv.S()'),
+        'rr': ('ReusableResource rr = new ReusableResource(5.0);\n', 'new rr.Use(amount:1.0)'),
+        'impulse': ('predicate P() : Impulse { at >= 1.0; }\n', 'new P()'),
+    }
+    out = []
+    for hn, (decl, new) in hosts.items():
+        for body in ('fact f = %s;' % new, 'goal s = new H(); ', 'fact f = %s; real w; w >= 2.0;' % new):
+            for ngoals in (1, 2, 3):
+                L = [decl, 'predicate H() { fact h = %s; }\n' % new, 'predicate G(real k) { %s }\n' % body]
+                for i in range(ngoals):
+                    L.append('goal g%d = new G(k:1.0);\n' % i)
+                L.append('horizon >= 10.0;\n')
+                out.append(('fx_%s_%d_%d' % (hn, ngoals, len(out)), [''.join(L), 'real y;\ny >= 3.0;\n', 'real z;\nz <= y;\n'], True))
+    return out
+
+
+def illtyped_family():
+    """C18: programs that are syntactically valid but apply an operator to operands of the wrong kind (boolean connectives on
+    numbers, arithmetic on booleans / objects / strings, relations between booleans, the precedence traps 'x < 5 | y >= 1' and
+    'x != 0 | b'): reading must end with a reported error (or succeed where the language allows the mix), never abort;
+    (name, parts, None)"""
+    decl = 'bool b; bool c; real x; real y; string s; class K { real f = 1.0; }\nK k = new K();\n'
+    ops = {'bool': ['b', 'c', '!b', '(x >= 1.0)'], 'num': ['x', 'y', '1.0', '(x + y)', 'k.f'], 'obj': ['k'], 'str': ['s', '"txt"']}
+    out = []
+    n = 0
+    for op in ('|', '&', '^', '->', '+', '-', '*', '/', '<', '<=', '==', '!=', '>=', '>'):
+        for lk, rk in (('bool', 'num'), ('num', 'bool'), ('num', 'num'), ('bool', 'bool'), ('obj', 'num'), ('num', 'obj'), ('str', 'num'), ('bool', 'obj'), ('obj', 'obj'), ('str', 'str')):
+            l, r = ops[lk][n % len(ops[lk])], ops[rk][(n // 2) % len(ops[rk])]
+            n += 1
+            if not l[0].isalpha() and l[0] != '(':
+                l = '(' + l + ')'
+            stmt = '%s %s %s;' % (l, op, r)
+            if op in ('+', '-', '*', '/'):
+                stmt = '%s %s %s >= 0.0;' % (l, op, r)
+            out.append(('fy_%03d' % n, [decl + stmt + '\n'], None))
+    for k, stmt in enumerate(['x < 5.0 | y >= 1.0;', 'x != 0.0 | b;', 'x == 0.0 | b;', 'b | x;', '!x;', 'b -> x;', 'x ^ y;', 'k + 1.0 >= 0.0;', 's <= 1.0;',
+                              'k.f | b;', 'b & c & x;', 'x + b >= 1.0;', 'x * s >= 1.0;', '(b) >= 1.0;', 'b == x;', 'k == x;', 's == k;']):
+        out.append(('fy_trap_%d' % k, [decl + stmt + '\n'], None))
+        out.append(('fy_trap_rule_%d' % k, [decl + 'predicate P() { %s }\ngoal g = new P();\n' % stmt], None))
+    return out
